@@ -20,9 +20,11 @@ import (
 	"net/http/httptest"
 	"os"
 	"sort"
+	"strconv"
 	"strings"
 
 	"github.com/formancehq/ledger/internal/api"
+	apibackend "github.com/formancehq/ledger/internal/api/backend"
 	"github.com/formancehq/ledger/internal/opentelemetry/metrics"
 	"github.com/formancehq/ledger/internal/storage/sqlutils"
 	"github.com/formancehq/ledger/internal/storage/systemstore"
@@ -32,6 +34,7 @@ import (
 	"github.com/formancehq/stack/libs/go-libs/auth"
 	"github.com/formancehq/stack/libs/go-libs/health"
 	"github.com/go-chi/chi/v5"
+	"go.uber.org/fx"
 )
 
 type reqIn struct {
@@ -44,8 +47,12 @@ type reqIn struct {
 }
 
 type input struct {
-	ReadOnly bool  `json:"readOnly"`
-	Req      reqIn `json:"request"`
+	ReadOnly bool `json:"readOnly"`
+	// how the router is obtained: "" = api.NewRouter(..., readOnly) directly; "module" = the chi.Router that
+	// api.Module(api.Config{Version, ReadOnly}) provides through fx, as `ledger serve` assembles it
+	Via     string `json:"via,omitempty"`
+	Version string `json:"version,omitempty"`
+	Req     reqIn  `json:"request"`
 }
 
 // ledger names starting with "new" do not exist yet (v1's autoCreateMiddleware then creates them)
@@ -68,7 +75,7 @@ type side struct {
 	chiSaid int // set by the instrumented NotFound / MethodNotAllowed responders
 }
 
-func build(ro bool) (s *side) {
+func build(ro bool, via, version string) (s *side) {
 	s = &side{ro: ro, l: &fakeapi.Ledger{}, routes: map[string]bool{}}
 	s.b = &backend{&fakeapi.Backend{L: s.l}}
 	defer func() {
@@ -76,7 +83,27 @@ func build(ro bool) (s *side) {
 			s.broken = fmt.Sprint(r)
 		}
 	}()
-	s.router = api.NewRouter(s.b, &health.HealthController{}, metrics.NewNoOpRegistry(), auth.NewNoAuth(), ro)
+	if via == "module" {
+		// the wiring of cmd/serve.go: api.Module provides chi.Router (and health, the meter provider, the decorated
+		// metrics registry); what the rest of the application provides is supplied here; only backend.Backend, whose
+		// real provider needs the storage driver, is replaced by the recording fake
+		var router chi.Router
+		app := fx.New(
+			fx.NopLogger,
+			api.Module(api.Config{Version: version, ReadOnly: ro}),
+			auth.Module(auth.ModuleConfig{}),
+			fx.Provide(func() metrics.GlobalRegistry { return metrics.NewNoOpRegistry() }),
+			fx.Decorate(func() apibackend.Backend { return s.b }),
+			fx.Populate(&router),
+		)
+		if err := app.Err(); err != nil {
+			s.broken = "fx: " + err.Error()
+			return s
+		}
+		s.router = router
+	} else {
+		s.router = api.NewRouter(s.b, &health.HealthController{}, metrics.NewNoOpRegistry(), auth.NewNoAuth(), ro)
+	}
 	// same answers as chi's defaults, plus a mark telling them from a 404 written by a middleware or a controller
 	s.router.NotFound(func(w http.ResponseWriter, r *http.Request) {
 		s.chiSaid = 404
@@ -195,6 +222,7 @@ func coqCase(in input, ob observation) string {
 type runner struct {
 	r        *vx.Run
 	ro, rw   *side
+	modules  map[string]*side // api.Module-built routers, by version and flag
 	createdN int
 	created  *input
 	reached  map[string]bool // "METHOD pattern" reached by a well-formed request without the flag
@@ -203,11 +231,8 @@ type runner struct {
 // one request under one flag: oracle, then the Coq case
 func (x *runner) single(in input) {
 	r := x.r
-	s := x.rw
-	if in.ReadOnly {
-		s = x.ro
-	}
-	if s.broken != "" {
+	s, srw := x.sideFor(in.Via, in.Version, in.ReadOnly), x.sideFor(in.Via, in.Version, false)
+	if s.broken != "" || srw.broken != "" {
 		return
 	}
 	ob, ok := s.do(in.Req)
@@ -218,8 +243,13 @@ func (x *runner) single(in input) {
 	size := len(in.Req.Target) + len(in.Req.Body) + 20*len(in.Req.Headers)
 	if in.ReadOnly && len(ob.Writes) > 0 {
 		// the property itself
-		r.FailP("C19", "write-in-read-only:"+ob.Writes[0]+":via-"+in.Req.Method, in,
-			fmt.Sprintf("router built with readOnly=true; %s %s reached %q (status %d) and the backend recorded %v",
+		sig, how := "write-in-read-only:"+ob.Writes[0]+":via-"+in.Req.Method, "router built with readOnly=true"
+		if in.Via == "module" {
+			sig = "write-in-read-only:" + ob.Writes[0] + ":via-module(version=" + strconv.Quote(in.Version) + ")"
+			how = fmt.Sprintf("chi.Router provided by api.Module(api.Config{Version: %q, ReadOnly: true})", in.Version)
+		}
+		r.FailP("C19", sig, in,
+			fmt.Sprintf(how+"; %s %s reached %q (status %d) and the backend recorded %v",
 				in.Req.Method, in.Req.Target, ob.Matched, ob.Status, ob.Writes), size)
 	}
 	if ob.Panic != "" {
@@ -233,13 +263,16 @@ func (x *runner) single(in input) {
 			x.created = &c
 		}
 	}
-	if !in.ReadOnly && in.Req.WF && ob.Matched != "" {
+	if in.Via != "" {
+		r.Count("via:" + in.Via + "(version=" + strconv.Quote(in.Version) + ")")
+	}
+	if !in.ReadOnly && in.Via == "" && in.Req.WF && ob.Matched != "" {
 		x.reached[in.Req.Method+" "+ob.Matched] = true
 	}
 	// non-trivial: without the flag this request makes the backend record a write (the gate is what stops it)
 	nontrivial := false
 	if in.ReadOnly {
-		if o2, ok := x.rw.do(in.Req); ok && len(o2.Writes) > 0 {
+		if o2, ok := srw.do(in.Req); ok && len(o2.Writes) > 0 {
 			nontrivial = true
 		}
 	} else {
@@ -265,6 +298,25 @@ func (x *runner) single(in input) {
 		coq = "" // a preflight: answered by the cors middleware of the mounted router, outside the model; oracle only
 	}
 	r.Case(coq, in, string(key), nontrivial)
+}
+
+func (x *runner) sideFor(via, version string, ro bool) *side {
+	if via != "module" {
+		if ro {
+			return x.ro
+		}
+		return x.rw
+	}
+	k := fmt.Sprintf("%q/%v", version, ro)
+	if x.modules[k] == nil {
+		x.modules[k] = build(ro, "module", version)
+	}
+	return x.modules[k]
+}
+
+func (x *runner) bothVia(version string, rq reqIn) {
+	x.single(input{ReadOnly: false, Via: "module", Version: version, Req: rq})
+	x.single(input{ReadOnly: true, Via: "module", Version: version, Req: rq})
 }
 
 func (x *runner) both(rq reqIn) {
@@ -293,6 +345,9 @@ const bulkBody = `[{"action":"CREATE_TRANSACTION","data":{"postings":[{"source":
 	`{"action":"ADD_METADATA","data":{"targetType":"ACCOUNT","targetId":"bank","metadata":{"k":"v"}}},` +
 	`{"action":"REVERT_TRANSACTION","data":{"id":7}},` +
 	`{"action":"DELETE_METADATA","data":{"targetType":"TRANSACTION","targetId":7,"key":"k"}}]`
+
+// version strings given to api.Module (the released binary's, the default of an unversioned build, none, blank)
+var moduleVersions = []string{"", "develop", "v2.0.0", " "}
 
 var methods = []string{"GET", "HEAD", "POST", "PUT", "PATCH", "DELETE", "OPTIONS", "CONNECT", "TRACE", "FOO", "PROPFIND", "get", "post", "delete", "Post"}
 
@@ -506,11 +561,12 @@ func main() {
 	r.Sum.Rule = "every (method, pattern) chi.Walk reports for the real api.NewRouter, united with the translator's table, instantiated with " +
 		"4 parameter sets x 15 methods (9 of chi, unknown, lower/mixed case) x variants (method-override headers and query, trailing slash, " +
 		"bulk / garbage / script bodies, every literal route segment as the value of one parameter, CORS Origin / Access-Control-Request-Method headers on every method), then seeded random paths/methods/bodies/headers; each request is served by the " +
-		"router built with readOnly=false and by the one built with readOnly=true; non-trivial = without the flag the backend records a " +
+		"router built with readOnly=false and by the one built with readOnly=true; every pattern x method is also sent to the chi.Router that " +
+		"api.Module(api.Config{Version, ReadOnly}) provides through fx, for 4 version strings x both flags; non-trivial = without the flag the backend records a " +
 		"write for this request; distinct by the JSON of (flag, request)"
 	r.Sum.Samples = []any{} // never null in summary.json, also when the router cannot even be built
-	x := &runner{r: r, reached: map[string]bool{}}
-	x.rw, x.ro = build(false), build(true)
+	x := &runner{r: r, reached: map[string]bool{}, modules: map[string]*side{}}
+	x.rw, x.ro = build(false, "", ""), build(true, "", "")
 	for _, s := range []*side{x.rw, x.ro} {
 		if s.broken != "" {
 			// the server cannot be built in this mode at all: the mechanism of the property is gone
@@ -574,6 +630,32 @@ func main() {
 	for _, full := range fulls {
 		x.routeRequests(full, registered[full], r.Thorough())
 	}
+	// the same server assembled the way `ledger serve` does it: api.Module(api.Config{Version, ReadOnly}) through fx
+	moduleBroken := ""
+	for _, v := range moduleVersions {
+		for _, ro := range []bool{false, true} {
+			if s := x.sideFor("module", v, ro); s.broken != "" {
+				moduleBroken = fmt.Sprintf("api.Module(api.Config{Version: %q, ReadOnly: %v}) could not be assembled: %s", v, ro, s.broken)
+			}
+		}
+	}
+	if moduleBroken == "" {
+		for _, v := range moduleVersions {
+			for _, full := range fulls {
+				target := instantiate(full, paramSets[0])
+				for _, m := range methods {
+					x.bothVia(v, reqIn{Method: m, Target: target, Body: rightBody(full), WF: registered[full][m], Variant: "plain"})
+				}
+			}
+			for _, d := range docs {
+				var in input
+				if err := json.Unmarshal(d, &in); err == nil && in.Req.Method != "" && in.Via == "" {
+					x.bothVia(v, in.Req)
+				}
+			}
+		}
+	}
+
 	// the literal segments of the routes chi.Walk reports, as parameter values
 	litSet := map[string]bool{}
 	for k := range x.rw.routes {
@@ -643,4 +725,9 @@ func main() {
 			"(v1 autoCreateMiddleware runs for GET on a ledger that does not exist yet), e.g. %s", x.createdN, js))
 	}
 	r.Finish()
+	if moduleBroken != "" {
+		// the wiring can no longer be exercised: not a finding by itself, but this part of the tie does not check
+		fmt.Fprintln(os.Stderr, "obs-router:", moduleBroken)
+		os.Exit(3)
+	}
 }
